@@ -39,6 +39,8 @@ type c05In struct {
 	RT      *c05RT    `json:"rt,omitempty"` // kind retryt: timed retry loop (c05_retry.go)
 	Robin   uint32    `json:"robin,omitempty"` // kind rrseq: value the RoundRobin counter is set to
 	M       int       `json:"m,omitempty"`     // kind rrseq: number of consecutive Selects
+	Conc    *c04Conc  `json:"conc,omitempty"`  // kind retryconc: concurrent schedule (c05_conc.go, machinery of c04_conc.go)
+	RRB     *c05RRB   `json:"rrb,omitempty"`   // kind rrblocks: several round_robin blocks served alternately (c05_conc.go)
 }
 
 // setRobin sets the unexported uint32 counter of a RoundRobin policy (4 * 10^9 Selects are not replayed)
@@ -122,6 +124,10 @@ func c05Run(in0 interface{}) Result {
 	switch in.Kind {
 	case "retryt":
 		return c05RunTimed(in)
+	case "retryconc":
+		return c05RunRetryConc(in)
+	case "rrblocks":
+		return c05RunRRBlocks(in)
 	case "rrseq":
 		rr := &proxy.RoundRobin{}
 		setRobin(rr, in.Robin)
@@ -467,6 +473,22 @@ func c05Gen(r *Rand, tier string) []interface{} {
 			out = append(out, &c05In{Kind: "rrseq", Pool: pool, Robin: uint32(r.Intn(1 << 30)), M: 3 * n})
 		}
 	}
+	// own random stream for the kinds below: the cases above do not depend on how many are drawn
+	rs := NewRand(r.U64())
+	nConc, nBlocks := 24, 120
+	if tier == "thorough" {
+		nConc, nBlocks = 240, 1200
+	}
+	for i := 0; i < nBlocks; i++ {
+		out = append(out, c05GenRRBlocks(rs, i))
+	}
+	// the child-process cases are spread over the list, so that they land in different Coq shards
+	step := len(out) / (nConc + 1)
+	for i := 0; i < nConc; i++ {
+		c := c05GenRetryConc(rs, i)
+		at := (i + 1) * step
+		out = append(out[:at], append([]interface{}{c}, out[at:]...)...)
+	}
 	return out
 }
 
@@ -475,7 +497,7 @@ func (r *Rand) Pick2(xs ...int) int { return xs[r.Intn(len(xs))] }
 func init() {
 	register(&Property{
 		ID: "C05", Imports: "V.Lib V.C05_Model", Judge: "judge",
-		Rule: "exhaustive pools (size<=5 quick, <=8 thorough) x every availability vector x every policy x keys covering every hash residue, plus random pools/states through the exported policy types and through staticUpstream.Select (parsed proxy block), plus Proxy.ServeHTTP retry runs against loopback backends with scripted failures; non-trivial = some but not all hosts available / a retry with at least one failing available host",
+		Rule: "exhaustive pools (size<=5 quick, <=8 thorough) x every availability vector x every policy x keys covering every hash residue, plus random pools/states through the exported policy types and through staticUpstream.Select (parsed proxy block), plus Proxy.ServeHTTP retry runs against loopback backends with scripted failures; retryconc: concurrent schedules in a child process (GOMAXPROCS/GC pinned) - requests with unique body patterns through one proxy with 2-3 hosts, try_duration and fail_timeout > 0, first attempts failing after the body was read, and between a failure and its retry other responses are relayed through the pooled buffers and LATE requests start and buffer their bodies: every attempt's body bytes are judged against the request's own pattern; rrblocks: 2-4 `policy round_robin` blocks parsed from one text and served alternately through Proxy.ServeHTTP, fairness judged per block; non-trivial = some but not all hosts available / a retry with at least one failing available host / a concurrent schedule with >= 2 requests one of which retries a non-empty body / >= 2 blocks with >= 2 available hosts and >= 4 requests",
 		Gen:    c05Gen,
 		Decode: func(raw json.RawMessage) (interface{}, error) { in := &c05In{}; return in, json.Unmarshal(raw, in) },
 		Run:    c05Run,
